@@ -1,4 +1,69 @@
-import PysnarkModel.Model.Prog
+import PysnarkModel.Lemmas.InvRun
+import PysnarkModel.Spec.Curves
+import PysnarkModel.Gen.Constants
+/-!
+# C01 — completeness: the recorded witness satisfies every emitted constraint
+
+Quantifier: all programs of the instruction language (integer, boolean, fixed-point operators in
+every operand-kind combination, assertions, conversions, selection on values and lists, array
+access, guarded regions with either guard value, configuration changes of bitlength/resolution),
+all input literals, all bitlengths/resolutions, every prime modulus — for runs that complete.
+`out.st.p` is the modulus of the final state (the model has no instruction that changes it).
+-/
 namespace Pysnark
-example : True := trivial
+
+/-- the property at full strength: no restriction on the program beyond "the user has not switched
+error checking off" (`set ign` absent) and plain literals -/
+def C01_full : Prop :=
+  ∀ (p : Nat), p.Prime → ∀ (bl res : Nat) (prog : List Instr),
+    (∀ i ∈ prog, i.isSetIgn = false) → (∀ w, Instr.lit w ∈ prog → w.noSecret = true) →
+    ∀ out, run (St.init p bl res) prog = out → out.err = none →
+      ∀ c ∈ out.st.cons, Sat out.st.p out.st.assign c
+
+/-- proved for `Fragment` (see `Spec/R1CS.lean`): guarded regions not nested, and no `/` in a
+program that also has a guarded region.  Neither exclusion is a known counterexample on the
+repaired tree: nested regions need the value analysis of the AND gadget that computes the
+effective guard (composition missing); the `/` exclusion predates the repair of finding
+C04-div-const and is kept until the repaired arm is re-proved. -/
+theorem C01_partial (p : Nat) (hp : p.Prime) (bl res : Nat) (prog : List Instr) (hfrag : Fragment prog)
+    (hlit : ∀ w, Instr.lit w ∈ prog → w.noSecret = true)
+    (out : Out) (hout : run (St.init p bl res) prog = out) (herr : out.err = none) :
+    ∀ c ∈ out.st.cons, Sat out.st.p out.st.assign c :=
+  (run_inv_plain p hp bl res prog hfrag hlit out hout herr).1.sat
+
+/-- instances for the three real fields (their primality: C13) -/
+theorem C01_real_fields :
+    (∀ bl res prog, Fragment prog → (∀ w, Instr.lit w ∈ prog → w.noSecret = true) →
+      ∀ out, run (St.init Spec.bn254_r bl res) prog = out → out.err = none →
+        ∀ c ∈ out.st.cons, Sat out.st.p out.st.assign c) ∧
+    (∀ bl res prog, Fragment prog → (∀ w, Instr.lit w ∈ prog → w.noSecret = true) →
+      ∀ out, run (St.init Spec.bls12_381_r bl res) prog = out → out.err = none →
+        ∀ c ∈ out.st.cons, Sat out.st.p out.st.assign c) ∧
+    (∀ bl res prog, Fragment prog → (∀ w, Instr.lit w ∈ prog → w.noSecret = true) →
+      ∀ out, run (St.init Spec.curve25519_l bl res) prog = out → out.err = none →
+        ∀ c ∈ out.st.cons, Sat out.st.p out.st.assign c) :=
+  ⟨fun bl res prog hf hl out ho he => C01_partial _ Spec.bn254_r_prime bl res prog hf hl out ho he,
+   fun bl res prog hf hl out ho he => C01_partial _ Spec.bls12_381_r_prime bl res prog hf hl out ho he,
+   fun bl res prog hf hl out ho he => C01_partial _ Spec.curve25519_l_prime bl res prog hf hl out ho he⟩
+
+/-- the hypothesis on literals cannot be dropped (a literal could smuggle in an incoherent object) -/
+theorem C01_needs_plain_literals :
+    ¬ (∀ (p : Nat) (_ : p.Prime) (bl res : Nat) (prog : List Instr) (_ : Fragment prog)
+      (out : Out) (_ : run (St.init p bl res) prog = out) (_ : out.err = none),
+      Inv out.st ∧ ∀ v ∈ out.regs, GoodV out.st v) := run_inv_needs_hlit
+
+/-! non-vacuity: a 14-instruction program with a comparison, a division with remainder, a selection,
+a guarded region with a false guard around an assertion that fails on the values, and a product,
+is in the fragment and completes over p = 97 -/
+def exProg01 : List Instr :=
+  [.lit (.int 5), .mk .priv 0, .lit (.int 3), .mk .pub 2, .bin .lt 1 3, .bin .floordiv 1 3, .ite 4 1 3,
+   .lit (.int 0), .mk .priv 7, .genter 8, .call .assertLt 1 [3], .gleave, .bin .mul 6 5, .call .val 12 []]
+
+example : Fragment exProg01 ∧ (∀ w, Instr.lit w ∈ exProg01 → w.noSecret = true) ∧
+    (run (St.init 97 8 8) exProg01).err = none ∧ (run (St.init 97 8 8) exProg01).st.cons.length = 51 := by
+  refine ⟨⟨by decide, by decide, fun _ => by decide⟩, ?_, by decide +kernel, by decide +kernel⟩
+  intro w hw
+  simp only [exProg01, List.mem_cons, Instr.lit.injEq, List.mem_nil_iff, or_false, reduceCtorEq, false_or, or_false] at hw
+  rcases hw with rfl | rfl | rfl <;> simp [Val.noSecret]
+
 end Pysnark
